@@ -11,6 +11,7 @@ package transport
 import (
 	"bytes"
 	"fmt"
+	"os"
 	"strings"
 	"testing"
 	"time"
@@ -54,6 +55,29 @@ func c01upMenu() []c01upItem {
 	return []c01upItem{
 		{name: "valid(q0)", answers: 0, build: valid(0)},
 		{name: "valid(q1)", answers: 1, build: valid(1)},
+		// a valid two-record reply, and (for the other exchange, same name length, so the offsets line up) the same kind of reply cut
+		// right after its first record although the header announces two: what follows in a recycled read buffer is the tail of
+		// the earlier datagram
+		{name: "valid2(q0)", answers: 0, build: func(s *c14Server, ci int, qs []env.PeerQuery) []byte {
+			if len(qs) == 0 || qs[0].Msg == nil {
+				return nil
+			}
+			s.serial++
+			s.sent[s.serial] = qs[0].Msg.Q[0].Name.String()
+			m := env.Answer(qs[0].Msg, s.serial, 60)
+			m.An = append(m.An, refdns.A(qs[0].Msg.Q[0].Name, 60, 9, 9, 9, 9))
+			return m.Encode(true)
+		}},
+		{name: "two-announced-one-present(q1)", answers: -1, malformed: true, build: func(s *c14Server, ci int, qs []env.PeerQuery) []byte {
+			if len(qs) < 2 || qs[1].Msg == nil {
+				return nil
+			}
+			m := env.Answer(qs[1].Msg, 0xEB, 60)
+			full := m.Encode(true)
+			m.An = append(m.An, refdns.A(qs[1].Msg.Q[0].Name, 60, 8, 8, 8, 8))
+			two := m.Encode(true)
+			return two[:len(full)] // header says 2 answers, the datagram ends after the first
+		}},
 		{name: "unsolicited-id", answers: -1, build: func(s *c14Server, ci int, qs []env.PeerQuery) []byte {
 			if len(qs) == 0 || qs[0].Msg == nil {
 				return nil
@@ -102,9 +126,17 @@ func c01upMenu() []c01upItem {
 	}
 }
 
+var c01upAsC04 = os.Getenv("VERIF_PROP") == "C04"
+
 func c01upScenario(c *choice.Ctx, rep *report.R, k c14Kind, proglen int) {
-	own := env.InstallOwn(0xA5, vRace)
-	defer env.UninstallOwn()
+	// On the datagram transport the exploration also runs without the ownership hook: with it every recycled buffer is filled with a
+	// pattern that never decodes, which would hide a decoder that reads past the end of a datagram into what an earlier, longer
+	// datagram left in the same buffer (as it happens in production).
+	var own *env.Own
+	if k.tcp || c.Choose(2, "recycled-buffers-keep-their-content") == 0 {
+		own = env.InstallOwn(0xA5, vRace)
+		defer env.UninstallOwn()
+	}
 	network := "udp"
 	if k.tcp {
 		network = "tcp"
@@ -114,6 +146,13 @@ func c01upScenario(c *choice.Ctx, rep *report.R, k c14Kind, proglen int) {
 	srv := &c14Server{d: d, tcp: k.tcp, healthy: false, handled: map[int]int{}, broken: map[int]bool{}, sent: map[byte]string{}}
 	var trace []string
 	fail := func(sig, msg string) {
+		if c01upAsC04 {
+			// as a part of C04: a returned message that the server never sent as such (pieces of two replies glued together)
+			if sig == "undecodable-reply-accepted" {
+				rep.Violate("C04:upstream-reply:"+k.name+":reply-made-of-two-datagrams", fmt.Sprintf("%s\n  %s: %s", msg, k.name, strings.Join(trace, " ")), map[string]any{"Choices": c.Choices(), "Kind": k.name})
+			}
+			return
+		}
 		rep.Violate("C01:upstream-reply:"+k.name+":"+sig, fmt.Sprintf("%s\n  %s: %s", msg, k.name, strings.Join(trace, " ")), map[string]any{"Choices": c.Choices(), "Kind": k.name})
 	}
 	note := func(f string, a ...any) { trace = append(trace, fmt.Sprintf(f, a...)) }
@@ -280,8 +319,10 @@ func c01upScenario(c *choice.Ctx, rep *report.R, k c14Kind, proglen int) {
 	tr.Close()
 	hsleep(7 * time.Second)
 	wait()
-	for _, v := range own.Audit() {
-		fail("ownership", v)
+	if own != nil {
+		for _, v := range own.Audit() {
+			fail("ownership", v)
+		}
 	}
 	var st []string
 	for _, cl := range all {
@@ -293,7 +334,7 @@ func c01upScenario(c *choice.Ctx, rep *report.R, k c14Kind, proglen int) {
 }
 
 func TestVerifC01Upstream(t *testing.T) {
-	rep := report.New("C01 malformed upstream replies")
+	rep := report.New(map[bool]string{false: "C01 malformed upstream replies", true: "C04 replies made of what the server sent"}[c01upAsC04])
 	defer rep.Write()
 	proglen := report.ParamInt("PROGLEN", 2)
 	var names []string
